@@ -152,6 +152,6 @@ def check_C17(tier, seed):
         out.samples = [{"grammar_text": corpus[i][:300]} for i in (0, len(seeds) + 3, len(corpus) - 1)]
     finally:
         shutil.rmtree(scratch, ignore_errors=True)
-    rule = ("stage 1 = the tree's generator; gen2 = stage1(grammar.ebnf); shipped generated.rs compared token-wise with gen2; stage 2 = generator rebuilt around gen2 (scratch copy, deleted afterwards); gen3 = stage2(grammar.ebnf) must equal gen2 byte for byte; "
+    rule = ("the command-line route bootstrap.sh takes (header CRC = CRC-32 of grammar.ebnf, also in the shipped file; code = library code); stage 1 = the tree's generator; gen2 = stage1(grammar.ebnf); shipped generated.rs compared token-wise with gen2; stage 2 = generator rebuilt around gen2 (scratch copy, deleted afterwards); gen3 = stage2(grammar.ebnf) must equal gen2 byte for byte; "
             "then both front ends read the same corpus (suite grammars, generator output, token/byte mutants, hostile texts) and must return the same Debug(Grammar) or the same ParseError. Non-trivial: text is not a suite grammar verbatim.")
     return out.finish(evaluations, nontriv, rule, floor=100)
